@@ -36,11 +36,12 @@ pub const PAUSE_SITES: &[u32] = &[rv::SM_SYNC_LOCKED, rv::SM_SYNC_EACH_ENTRY, rv
     rv::SM_DROPPED_AFTER_WAKER, rv::SM_DROPPED_AFTER_COUNTERS, rv::SM_DROPPED_AFTER_VACANT, rv::MULTI_FANOUT_BEFORE_COUNT, rv::MULTI_FANOUT_AFTER_INCREMENT, rv::MULTI_FANOUT_BEFORE_ENTRY,
     rv::MULTI_FANOUT_BEFORE_PUBLISH, rv::MMAP_CREATE_AFTER_SUBSCRIBE, rv::MMAP_CREATE_AFTER_ID, rv::MMAP_SUBSCRIBE_AFTER_TAIL,
     // (inside a consume: a listener's poll -- and whatever a drop does with the listener's queue, e.g. discarding what was left unconsumed)
-    rv::AM_CONSUME_AFTER_RESERVE, rv::AM_CONSUME_AFTER_READ, rv::FS_CONSUME_LOCKED, rv::FS_CONSUME_AFTER_READ];
+    rv::AM_CONSUME_AFTER_RESERVE, rv::AM_CONSUME_AFTER_READ, rv::FS_CONSUME_LOCKED, rv::FS_CONSUME_AFTER_READ, rv::MULTI_XB_CONSUME_ENTER];
 
 /// what the drop of a listener goes through (streams manager, the listener's own queue)
 pub const DROP_SITES: &[u32] = &[rv::SM_DROPPED_AFTER_WAKER, rv::SM_DROPPED_AFTER_COUNTERS, rv::SM_DROPPED_AFTER_VACANT, rv::SM_SYNC_LOCKED, rv::SM_SYNC_EACH_ENTRY, rv::SM_SYNC_EACH_SENTINEL,
-    rv::SYNC_UNLOCK, rv::AM_CONSUME_AFTER_RESERVE, rv::AM_CONSUME_AFTER_RESERVE, rv::AM_CONSUME_AFTER_READ, rv::FS_CONSUME_LOCKED, rv::FS_CONSUME_LOCKED, rv::FS_CONSUME_AFTER_READ];
+    rv::SYNC_UNLOCK, rv::AM_CONSUME_AFTER_RESERVE, rv::AM_CONSUME_AFTER_RESERVE, rv::AM_CONSUME_AFTER_READ, rv::FS_CONSUME_LOCKED, rv::FS_CONSUME_LOCKED, rv::FS_CONSUME_AFTER_READ,
+    rv::MULTI_XB_CONSUME_ENTER, rv::MULTI_XB_CONSUME_ENTER];
 
 pub fn draw_cfg(rng: &mut Rng, only: Option<&str>, lane: Lane) -> Cfg {
     let kinds: Vec<Kind> = chan::MULTI_KINDS.iter().copied().filter(|k| only.map(|o| k.name() == o).unwrap_or(true)).collect();
